@@ -91,3 +91,12 @@ CHECK["suites"].append(dict(CHECK["suites"][0], name="srvw", extract="Extract/Ex
                             runner_name="SRVW", gen=gen_w, nontrivial=nontrivial_w, corr_eq=corr_eq_w,
                             rule=("the extracted composed model handle_message_w itself (no composition in the runner); every response "
                                   "it produces in octets must equal the real server's octet for octet")))
+
+
+# ---- third suite (pkg-signed): CORRECTLY SIGNED queries over both transports as a no-panic stream. Query answering for a request
+# whose TSIG verified is a PARAMETER of c01_no_panic (see level_note), and no suite above ever sends a request whose signature
+# verifies; here the real server runs those paths (verified TSIG, answering, truncation / clear_rrs, TSIG RR that does not fit).
+# No model column (no model of TSIG-bearing octets): the only requirement is two responses and never a panic / timeout / bad line.
+import siggen
+CHECK["suites"].append(dict(siggen.suite(siggen.oracle_c01),
+                            gen=lambda rng, tier: siggen.gen(rng, tier, *((400, 5, 400, 8) if tier == "quick" else (15000, 100, 10000, 200)))))
